@@ -8,6 +8,10 @@ for i, d in enumerate(dirs):
     if i % n != k:
         continue
     m = json.load(open(d + '/meta.json'))
+    if m.get('obsolete'):
+        with open(out, 'a') as f:
+            f.write('%s - obsolete (%s)\n' % (os.path.basename(d), m['obsolete'][:60]))
+        continue
     chk = re.search(r'[CX]\d\d', m.get('detected_by', {}).get('check', '') or '')
     chk = chk.group(0) if chk else m['property']
     patch = d + '/patch_rebased.diff' if os.path.exists(d + '/patch_rebased.diff') else d + '/patch.diff'
